@@ -1,7 +1,7 @@
 (* Stable, uniquely named entry points for the OCaml driver (extraction renames clashing
    identifiers such as eqb -> eqb0; these wrappers keep the driver independent of that). *)
 From Coq Require Import NArith ZArith List Bool.
-From Chess Require Import gen.T_zobrist base.Bits base.Types base.BitBoard geom.Geometry geom.GenFns geom.Lookup model.Score model.Abi model.Text model.Tracing spec.Rules model.Board model.MoveGen model.Apply model.Fen model.Search.
+From Chess Require Import gen.T_zobrist base.Bits base.Types base.BitBoard geom.Geometry geom.GenFns geom.Lookup model.Score model.Abi model.Text model.Tracing spec.Rules model.Board model.MoveGen model.Apply model.Fen model.Search model.Bot.
 Import ListNotations.
 Local Open Scope N_scope.
 
@@ -164,3 +164,10 @@ Definition api_mk_move (s d : N) (p : option piece) : move := {| m_src := s; m_d
 Definition api_search (k : N) (passes fuel : nat) (root : board) := Search.search k [] passes fuel root.
 Definition api_nat_of_N := N.to_nat.
 Definition api_score_neg2 := Score.neg.
+
+(* ---- bot (C15) ---- *)
+Definition api_bot_init := bot_init.
+Definition api_bot_set_board := bot_set_board.
+Definition api_bot_make_move := bot_make_move.
+Definition api_bot_evaluate := bot_evaluate.
+Definition api_bot_board := bt_board.
